@@ -4,6 +4,7 @@ import (
 	"bytes"
 	"encoding/json"
 	"fmt"
+	"math/big"
 	"time"
 
 	"github.com/Eyevinn/mp4ff/mp4"
@@ -72,14 +73,34 @@ func c09Stts(c *vf.Ctx, t *tableref.Tables) {
 				return
 			}
 			for _, ts := range []uint32{1, 1000, 90000} {
-				want := time.Second * time.Duration(s.DecTime) / time.Duration(ts)
+				// decode time / timescale as a time.Duration; skipped where the exact product does not fit int64
+				prod := new(big.Int).Mul(big.NewInt(int64(time.Second)), new(big.Int).SetUint64(s.DecTime))
+				if !prod.IsInt64() {
+					continue
+				}
+				want := time.Duration(prod.Int64()) / time.Duration(ts)
 				if got := stts.GetTimeCode(s.Nr, ts); got != want {
 					c.Fail("stts GetTimeCode", "GetTimeCode(nr,timescale) == decode time / timescale", map[string]interface{}{"case": det(), "nr": s.Nr, "ts": ts, "got": got, "want": want})
 					return
 				}
 			}
 		}
-		for tm := uint64(0); tm <= total+1; tm++ {
+		// every time 0..total+1, or (long tracks) the boundary times around every sample start and the end
+		var times []uint64
+		if total <= 4096 {
+			for tm := uint64(0); tm <= total+1; tm++ {
+				times = append(times, tm)
+			}
+		} else {
+			times = append(times, 0, 1, total-1, total, total+1)
+			for _, s := range exp {
+				times = append(times, s.DecTime, s.DecTime+1)
+				if s.DecTime > 0 {
+					times = append(times, s.DecTime-1)
+				}
+			}
+		}
+		for _, tm := range times {
 			// contract (as documented and as pinned by the repository's own TestGetSampleNrAtTime): first
 			// sample starting at or after tm; a final single zero-duration sample matches its own time;
 			// strictly inside the last sample the answer is N+1 (the position one past the end, which
@@ -108,7 +129,8 @@ func c09Stts(c *vf.Ctx, t *tableref.Tables) {
 }
 
 func c09EnumStts(c *vf.Ctx, maxN int) {
-	deltas := []int64{1, 2, 3}
+	// 2^31 and 2^32-1: two samples of such a run already exceed 32 bits
+	deltas := []int64{1, 2, 3, 0x80000000, 0xffffffff}
 	var jobs []tableref.Tables
 	for n := 1; n <= maxN; n++ {
 		enum.Compositions(n, func(parts []int) {
@@ -326,7 +348,7 @@ func c09EnumStsc(c *vf.Ctx, maxN int) {
 func c09Small(c *vf.Ctx, maxN int) {
 	var n64 int64
 	// stsz
-	sizes := []uint32{1, 2, 3}
+	sizes := []uint32{1, 2, 3, 0x80000000, 0xffffffff} // incl. sizes whose sums exceed 32 bits
 	for n := 1; n <= maxN; n++ {
 		var tabs []tableref.Tables
 		for _, u := range sizes {
@@ -664,7 +686,7 @@ func runC09(c *vf.Ctx) {
 		maxN, combN = 9, 6
 		c.SetBudget(10 * 60 * 1e9)
 	}
-	c.Rule = "every run-length table of N samples: stts = all compositions of N x deltas {1,2,3} per run (+ final single zero duration); ctts v0/v1 = all compositions x offsets {0,1,2}/{0,1,-1} (+ a zero-count run at every position); stsc = all chunkings (compositions) x every run-length encoding of the chunking (canonical and redundant) x description ids {1,2} per entry; stsz uniform / all size vectors over {1,2,3}; stco/co64 boundary offsets; stss every subset; sdtp all 256 entry values. Tables are serialised by an independent raw writer, decoded by the library, and every query is asked for every sample number, every interval 1<=a<=b<=N and every time 0..total+1 and compared with the naive per-sample expansion. Combined queries (GetSampleData, GetRangesForSampleInterval, CopySampleData in memory and lazy) on generated files for all chunkings of N samples x 8 table variants x {1,2} tracks. A case = one table/file (distinct by construction)."
+	c.Rule = "every run-length table of N samples: stts = all compositions of N x deltas {1,2,3,2^31,2^32-1} per run (+ final single zero duration); ctts v0/v1 = all compositions x offsets {0,1,2}/{0,1,-1} (+ a zero-count run at every position); stsc = all chunkings (compositions) x every run-length encoding of the chunking (canonical and redundant) x description ids {1,2} per entry; stsz uniform / all size vectors over {1,2,3,2^31,2^32-1}; stco/co64 boundary offsets; stss every subset; sdtp all 256 entry values. Tables are serialised by an independent raw writer, decoded by the library, and every query is asked for every sample number, every interval 1<=a<=b<=N and every time 0..total+1 and compared with the naive per-sample expansion. Combined queries (GetSampleData, GetRangesForSampleInterval, CopySampleData in memory and lazy) on generated files for all chunkings of N samples x 8 table variants x {1,2} tracks. A case = one table/file (distinct by construction)."
 	c.Bound = fmt.Sprintf("single tables: N <= %d; combined: N <= %d", maxN, combN)
 	c09EnumStts(c, maxN)
 	c09EnumCtts(c, maxN)
